@@ -26,6 +26,7 @@ var vxSweptClasses = []vxSwept{
 	{"initInt", func() *value.Class { return value.IntClass }, "headers/int.elh", "Int"},
 	{"initFloat", func() *value.Class { return value.FloatClass }, "headers/float.elh", "Float"},
 	{"initInt8", func() *value.Class { return value.Int8Class }, "headers/int8.elh", "Int8"},
+	{"initDateSpan", func() *value.Class { return value.DateSpanClass }, "headers/date/span.elh", "Date::Span"},
 	{"initUInt8", func() *value.Class { return value.UInt8Class }, "headers/uint8.elh", "UInt8"},
 	{"initInt64", func() *value.Class { return value.Int64Class }, "headers/int64.elh", "Int64"},
 	{"initUInt", func() *value.Class { return value.UIntClass }, "headers/uint.elh", "UInt"},
@@ -143,6 +144,13 @@ func vxValueOfType(t, name string) (value.Value, bool) {
 		c := vxInt32(name)
 		vxAssume(c >= 0 && c <= 0x10FFFF && !(c >= 0xD800 && c <= 0xDFFF))
 		return value.Char(c).ToValue(), true
+	case "Date::Span":
+		return value.MakeDateSpan(0, int(vxInt32(name+".months")), int(vxInt32(name+".days"))).ToValue(), true
+	case "Time::Span":
+		return value.TimeSpan(vxInt64(name)).ToValue(), true
+	case "DateTime::Span":
+		ds := value.MakeDateSpan(0, int(vxInt32(name+".months")), int(vxInt32(name+".days")))
+		return value.Ref(value.NewDateTimeSpan(ds, value.TimeSpan(vxInt64(name+".time")))), true
 	case "CoercibleNumeric":
 		// BigFloat operands are outside the sweep
 		if vxSplit(name+".num", 2) == 0 {
@@ -181,7 +189,36 @@ func vxIsInstance(v value.Value, t string) (is bool, known bool) {
 		}
 		return false
 	}
+	isDateSpan := func() bool {
+		if v.IsReference() {
+			_, ok := v.AsReference().(value.DateSpan)
+			return ok
+		}
+		return v.IsInlineDateSpan()
+	}
+	isTimeSpan := func() bool {
+		if v.IsReference() {
+			_, ok := v.AsReference().(value.TimeSpan)
+			return ok
+		}
+		return v.IsInlineTimeSpan()
+	}
+	isDateTimeSpan := func() bool {
+		if v.IsReference() {
+			_, ok := v.AsReference().(*value.DateTimeSpan)
+			return ok
+		}
+		return false
+	}
 	switch t {
+	case "Date::Span":
+		return isDateSpan(), true
+	case "Time::Span":
+		return isTimeSpan(), true
+	case "DateTime::Span":
+		return isDateTimeSpan(), true
+	case "Duration":
+		return isDateSpan() || isTimeSpan() || isDateTimeSpan(), true
 	case "Int":
 		return isInt(), true
 	case "Float":
@@ -303,10 +340,10 @@ func vxSweep(classIdx int, checkReturn bool, tag string) {
 	}
 }
 
-// quick: Int, Float, Int8; thorough: all swept classes
+// quick: Int, Float, Int8, Date::Span; thorough: all swept classes
 func vxSweptClass() int {
 	if vxTier() == 0 {
-		return vxSplit("class", 3)
+		return vxSplit("class", 4)
 	}
 	return vxSplit("class", len(vxSweptClasses))
 }
